@@ -559,6 +559,17 @@ Proof.
 Qed.
 Print Assumptions C10_jsonline_tag_of_own_line.
 
+(* the array form of the file ([obj, obj, ...], decoded at construction by readArray and replayed by
+   index): the same statement - each element means an ammo with the tag written in that element *)
+Theorem C10_jsonline_array_tag_of_own_element :
+  forall cfg url_parse (path_of : entry -> bytes) (xof : nat -> entry -> exchange) (k : nat) (ls : list jline) es,
+  read_array url_parse (lines_entities ls) = Some es -> es <> [] ->
+  exists ds, json_array_decode url_parse cfg0 k (lines_entities ls) = Some ds /\
+    shoot_deliveries cfg e_tag path_of xof 0 1 ds = ammo_spec cfg e_tag path_of xof 0 1 (cycle_take k es es) /\
+    map e_tag es = map line_tag ls.
+Proof. intros. apply json_array_file_samples; assumption. Qed.
+Print Assumptions C10_jsonline_array_tag_of_own_element.
+
 (* One decode target for all lines (the allocation-saving variant): it is the same decoder exactly
    when the target is reset to the zero value before each line; with ANY reset that leaves the tag
    field alone the tags are the carried ones - a line that writes no tag inherits the tag of the
